@@ -130,6 +130,27 @@ def search(res, tier, seed, deep=False):
                     report("parallel:" + name, dict(inp, nr_processes=nproc), repr(errp)[:200] if outp is None else float(np.nanmax(np.abs(outp - out))),
                            "parallel run differs from the serial run")
 
+    # memory layout: the same numbers as Fortran-ordered arrays, as a transposed [y, x, time] view, as a strided slice of a
+    # larger array — the grid result does not depend on how the arrays are laid out in memory
+    for name in (["LinearScaling", "QuantileMapping"] if tier == "quick" else ["LinearScaling", "QuantileMapping", "DeltaChange", "CDFt"]):
+        d = real_debiaser(name)
+        obs, hist, fut, tk = real_data(r, 2, 3)
+        np.random.seed(7)
+        ref, err = G.run_apply(d, obs, hist, fut, **tk)
+        if ref is None: continue
+        def fortran(a): return np.asfortranarray(a)
+        def transposed(a): return np.ascontiguousarray(a.T).T              # C-contiguous as [y, x, time], viewed as [time, x, y]
+        def strided(a):
+            big = np.full((a.shape[0], a.shape[1] * 2, a.shape[2] * 2), -999.0); big[:, ::2, ::2] = a; return big[:, ::2, ::2]
+        for lay_name, lay in (("fortran", fortran), ("transposed-view", transposed), ("strided-view", strided)):
+            for par in ((False, True) if tier != "quick" or lay_name == "fortran" else (False,)):
+                np.random.seed(7)
+                out, err = G.run_apply(d, lay(obs), lay(hist), lay(fut), parallel=par, nr_processes=2, **tk)
+                res.case(("layout", name, lay_name, par))
+                if out is None or out.shape != ref.shape or not np.array_equal(out, ref, equal_nan=True):
+                    report("layout:%s:%s" % (lay_name, "parallel" if par else "serial"), dict(debiaser=name, layout=lay_name, parallel=par, shape=list(fut.shape), seed=seed),
+                           repr(err)[:200] if out is None else dict(valid=int(np.isfinite(out).sum()), expected_valid=int(np.isfinite(ref).sum())),
+                           "the grid result depends on the memory layout of the input arrays")
     # missing values at particular positions of single cells (the first time step, the last one, somewhere inside): the grid
     # result is still the per-location result, cell by cell (debiasers that tolerate NaN: ISIMIP imputes, the mean-based ones
     # propagate it), in serial and in parallel
